@@ -36,7 +36,7 @@ LEAN = {"module": "Pygom.Props.C19",
                      "Pygom.C19.seed_table_complete", "Pygom.C19.test_seed_decision_table", "Pygom.C19.seeded_generators_reproducible",
                      "Pygom.C19.exp_rate_parameterisation", "Pygom.C19.gamma_rate_parameterisation", "Pygom.C19.norm_sd_parameterisation",
                      "Pygom.C19.nb2pmf_is_mass", "Pygom.C19.nb_mean_size_eq_np"]}
-BUDGET = {"quick": {"dpq": 40, "seed": 14, "search": 120}, "thorough": {"dpq": 700, "seed": 250, "search": 700}}
+BUDGET = {"quick": {"dpq": 120, "seed": 40, "search": 300}, "thorough": {"dpq": 8000, "seed": 2500, "search": 2500}}
 RULE = ("per family in {exp, gamma, norm, chisq, unif, beta, pois, binom, nbinom}: random valid parameters (rates / sds away from 1), "
         "6 arguments in the support and 4 probabilities in (0.01, 0.99), log in {False, True}, nbinom by prob and by mu, both tails; "
         "per generator: integer seeds (0 included), n = 1 and n > 1.  A d/p/q case is non-trivial when some argument has 1e-6 < cdf < "
@@ -509,7 +509,7 @@ def _run_dpq(case):
                 if hi[0] == lo[0] == dv[0] == "value":
                     fdiff = (hi[1] - lo[1]) / (2 * h)
                     curv = abs(float(mpmath.diff(lambda t: ref_pdf(fam, p, t), x, 2))) * h * h   # truncation bound of the central difference
-                    if abs(fdiff - dv[1]) > 1e-4 * max(abs(dv[1]), 1e-3) + 10 * curv + 1e-9 / h:
+                    if abs(fdiff - dv[1]) > 1e-4 * max(abs(dv[1]), 1e-3) + 10 * curv + 1e-12 / h:
                         violation("p" + fam, "dp/dx!=d", "(p%s(x+h)-p%s(x-h))/2h = %r but d%s(x) = %r at x=%r (%s)" % (fam, fam, fdiff, fam, dv[1], x, p))
     return {"nontrivial": bool(nontrivial and all_numbers), "mismatches": mism, "violations": viol, "tags": tags,
             "sample": {"family": fam, "params": p, "xs": case["xs"][:2], "us": case["us"][:2]}}
